@@ -673,11 +673,11 @@ def fit_violation(c, o) -> Violation:
 # ------------------------------------------------------------------------------------------ calibration runs
 
 
-def gen_calib(r, count, with_single):
+def gen_calib(r, count, with_single, quick=False):
     cases = []
     for i in range(count):
         rows, cols = r.randrange(2, 4), r.randrange(2, 4)
-        multi = i % 3 == 2
+        multi = i % 3 == 2 or (quick and i == 1)
         steps = 2 if multi else 1
         nt = r.choice([1, 2])
         pattern = [[r.randrange(1, 9) for _ in range(cols)] for _ in range(rows)]
@@ -686,10 +686,16 @@ def gen_calib(r, count, with_single):
         targets = [[[[g * v * (t + 1) + (offsets[k] if offsets else 0) + b + r.randrange(-1, 2) for v in row]
                      for row in pattern] for t in range(steps)] for k in range(nt)]
         tr, tc = sub_range(r, rows), sub_range(r, cols)
-        weights = dict(scalar=[r.choice([1, 2, 3]) for _ in range(nt)]) if (not multi and r.random() < 0.5) else None
+        orow, ocol = tr, tc
+        if i % 4 == 3 and tr[1] - tr[0] < rows:
+            a = r.choice([a for a in range(0, rows - (tr[1] - tr[0]) + 1) if a != tr[0]])
+            orow = (a, a + tr[1] - tr[0])              # shifted result range of equal extent
+        if i % 5 == 4:
+            tr = orow = (None, None) if tr == (0, rows) else (tr[0], None) if tr[1] == rows else tr   # open components
+        weights = dict(scalar=[r.choice([1, 2, 3]) for _ in range(nt)]) if (i % 2 == 0 and r.random() < 0.7) else None
         cases.append(dict(kind="calib", ff=r.choice(["abs", "sq"]), free=0, multi=multi, steps=steps, pattern=pattern,
                           offsets=offsets, targets=targets, trng=rng2(tr, tc),
-                          orng=rng3((0, steps) if (multi and i % 2 == 0) else (None, None), tr, tc),
+                          orng=rng3((0, steps) if (multi and i % 2 == 0) else (None, None), orow, ocol),
                           weights=weights, bypass=False, seed=r.randrange(1, 10000), islands=2, pop=7, generations=2,
                           evolutions=r.choice([3, 4, 5]), num_best=r.choice([None, 3])))
     if with_single:
@@ -827,6 +833,19 @@ def leg_calib(ctx, cases):
             ctx.broken.append(Broken("correspondence", "calibration driver failed", str(o)[:800], jc))
             continue
         ctx.count("calibration_runs")
+        if o["o"] == "ctor":
+            # every generated calibration declares ranges of equal extent inside target and frame
+            v, cls = py_verdict(c)
+            if v == "accept":
+                ctx.violations.append(Violation(
+                    clause="range_accepted", case=jc, observed=o,
+                    expected="the problem is constructed and the calibration runs",
+                    what=f"fit ranges of equal extent inside the target are refused at construction ({cls}; trng={c['trng']}, "
+                         f"orng={c['orng']}): {o['cls']}: {o['msg'][:120]}",
+                    sig=dict(clause="range_accepted", cls=cls, t3d=False)))
+            else:
+                ctx.broken.append(Broken("correspondence", "calibration case not constructible", str(o)[:800], jc))
+            continue
         if o["o"] == "evolve_raise":
             if c.get("single_param"):
                 ctx.violations.append(Violation(
@@ -952,7 +971,7 @@ def run(ctx: Ctx):
     ctx.log(f"problem.fitness leg done ({len(fit_pairs)} cases) t={__import__('time').time() - ctx.t0:.0f}s")
 
     # 3. real calibrations
-    calib_cases = gen_calib(ctx.rng("calib"), ctx.budget(2, 9), with_single=not ctx.quick)
+    calib_cases = gen_calib(ctx.rng("calib"), ctx.budget(2, 10), with_single=True, quick=ctx.quick)
     leg_calib(ctx, calib_cases)
     ctx.log(f"calibration leg done t={__import__('time').time() - ctx.t0:.0f}s")
 
